@@ -9,7 +9,7 @@ from hypothesis import strategies as st
 
 from vlib import pyx
 from vlib.gen_detector import simple_spec
-from vlib.gen_paramspace import (KEYS, NAME_KEY, NAMES, VECTOR_KEYS, applied_states, echo_pipeline, expected_pixel, full_state, observation_mode_spec,
+from vlib.gen_paramspace import (KEYS, NAME_KEY, NAMES, NESTED_KEY, VECTOR_KEYS, applied_states, echo_pipeline, expected_pixel, full_state, observation_mode_spec,
                                  reference_runs, select_run, spaces, state_tuple)
 from vlib.runner import Part
 
@@ -50,6 +50,8 @@ def body(case, rec):
         rec.cls("vector_param")
     if any(p["key"] == NAME_KEY for p in en):
         rec.cls("text_valued_param")
+    if any(p["key"] == NESTED_KEY for p in en):
+        rec.cls("nested_key_param")
     if any(not p["enabled"] for p in case["params"]):
         rec.cls("has_disabled")
     rec.nt(len(en) >= 2 or has_vec or any(not p["enabled"] for p in case["params"]))
@@ -124,11 +126,11 @@ def _compare(case, rec, res, edits, where=""):
 @st.composite
 def rerun_cases(draw):
     """A space, plus 1..2 later runs of the same Observation object, each after the user configured other values on detector / pipeline."""
-    case = draw(spaces(max_params=3, max_runs=12, with_names=True))
+    case = draw(spaces(max_params=3, max_runs=12, with_names=True, with_nested=True))
     case["reruns"] = []
     for _ in range(draw(st.integers(1, 2))):
         edits = {}
-        for key in draw(st.lists(st.sampled_from(KEYS + [NAME_KEY]), min_size=1, max_size=3, unique=True)):
+        for key in draw(st.lists(st.sampled_from(KEYS + [NAME_KEY, NESTED_KEY]), min_size=1, max_size=3, unique=True)):
             if key in VECTOR_KEYS:
                 edits[key] = [float(draw(st.integers(0, 9))), float(draw(st.integers(0, 9)))]
             elif key.endswith("quantum_efficiency"):
@@ -139,6 +141,8 @@ def rerun_cases(draw):
                 edits[key] = draw(st.sampled_from([0.5, 3.25, 9.5]))
             elif key == NAME_KEY:
                 edits[key] = draw(st.sampled_from(NAMES))
+            elif key == NESTED_KEY:
+                edits[key] = draw(st.sampled_from([5.0, 6.0, 7.0]))
             else:
                 edits[key] = draw(st.integers(41, 80))
         case["reruns"].append(edits)
@@ -171,7 +175,7 @@ def known_key(part, clause, case, detail):
 
 def plan(tier):
     return [
-        Part(name="space", kind="gen", strategy=lambda: spaces(with_names=True), examples=120 if tier == "quick" else 600),
+        Part(name="space", kind="gen", strategy=lambda: spaces(with_names=True, with_nested=True), examples=120 if tier == "quick" else 600),
         Part(name="rerun", kind="gen", strategy=rerun_cases, examples=40 if tier == "quick" else 300),
         Part(name="k1_sequential_dask", kind="enum", cases=k1_cases, shards=1),
         Part(name="long_expressions", kind="enum", cases=long_expression_cases),
